@@ -1057,6 +1057,18 @@ fn derive_dot_expression(
         // TypeErr propagation
         (Shape::TypeErr(_, _), _) => left_shape.clone(),
 
+        // A call or a copy made through a selector (`t.f(1)`, `t.m{..}`): the
+        // selected field is found at run time, what it yields is not known here.
+        (Shape::Tuple(_), Expression::Call(_))
+        | (Shape::Tuple(_), Expression::Copy(_))
+        | (Shape::Hole(_), Expression::Call(_))
+        | (Shape::Hole(_), Expression::Copy(_))
+        | (Shape::Narrowed(_), Expression::Call(_))
+        | (Shape::Narrowed(_), Expression::Copy(_)) => Shape::Narrowed(NarrowedShape {
+            pos: pos.clone(),
+            types: NarrowingShape::Any,
+        }),
+
         // Everything else is invalid
         (_, _) => Shape::TypeErr(pos.clone(), "Invalid field selector".to_owned()),
     }
